@@ -3,17 +3,19 @@
 //   rt scen <file> rand <seed> [stay]     run the scenario program of <file> under a seeded random schedule
 //   rt scen <file> replay <rle>           ... under an explicit schedule (tid*count,tid*count,...)
 //   rt iso  < ops                         "puppet": one thread plays every slot of a real arena, one line per operation
+//   rt nest < ops                         the same with REAL nested isolate_within_arena / task_arena::execute calls (see below)
 //
 // Scenario program (text):
 //   L <max_allowed_parallelism>
 //   arena <max_concurrency> <reserved>        (repeated: arena 0, 1, ...; created by the main thread before the scripts start)
 //   thread { stmts }                          (repeated: thread 0 = the main thread, the others are additional external threads)
 // stmts:
-//   exec A { .. }      arenas[A].execute                         iso { .. }        this_task_arena::isolate
+//   exec A { .. }      arenas[A].execute                         iso { .. }        this_task_arena::isolate   (isot { .. }: the functor throws at its end)
 //   tg { .. }          task_group g; ..; g.wait()                 run { .. }        g.run(body) on the innermost tg
 //   pfor N P { .. }    parallel_for over N indices, grain 1, partitioner P (0 simple, 1 static, 2 affinity, 3 auto); body per index
 //   enq A { .. }       arenas[A].enqueue(body); inside a tg the task belongs to the group, otherwise it is counted as pending
 //   crit { .. }        a critical task (d1::submit(.., as_critical)) of the innermost tg, submitted to the current arena
+//   byp { .. }         a task of the innermost tg whose execute() returns a fresh task running the block (bypass: no take, no filter)
 //   spin V / set V     wait for / raise event V                   waitenq           spin until every enqueued task has finished
 //   ifthread T { .. }  only when executed by controlled thread T (0 = main, 1.. = the other script threads, then the workers)
 //   idle V / wake V    wait inside the current arena's dispatch loop (stealing, mailbox, streams) until another thread executes `wake V`
@@ -121,6 +123,7 @@ struct Ghost {
 static Ghost G_[MAXT];
 static Ghost& me() { int t = verif::self(); return G_[t < 0 || t >= MAXT ? 0 : t]; }
 static long g_next_region = 1;
+static std::map<long, std::intptr_t> g_region_tag;      // ghost region -> the isolation word isolate_within_arena installed for it
 static int g_workers_in_bodies = 0, g_max_workers_in_bodies = 0;
 static std::map<arena*, std::map<int, int>> g_idx;      // arena -> current_thread_index -> thread id, for threads inside bodies
 static long g_bodies = 0, g_iso_checked = 0, g_worker_bodies = 0, g_pending = 0, g_enq_done = 0;
@@ -148,6 +151,14 @@ template <class F> static void body(long region, F&& f) {
             viol("ISO thread " + std::to_string(tid) + " waiting inside isolation region " + std::to_string(R) + " executed a task of region " + std::to_string(region));
     }
     g.regions.push_back(region);
+    {   // the dispatcher's isolation word while a body of region `region` runs is that region's tag (a task taken from a container carries it, a
+        // bypassed task inherits it, task_arena::execute / an enqueued task run without isolation)
+        std::intptr_t word = td->my_task_dispatcher->m_execute_data_ext.isolation;
+        std::intptr_t want = region == 0 ? 0 : g_region_tag[region];
+        if (word != want)
+            viol("ISO thread " + std::to_string(tid) + " runs a body of region " + std::to_string(region) + " under an isolation word that is " +
+                 (word == 0 ? "no_isolation" : "not that region's tag") + (want == 0 ? " (expected no_isolation)" : ""));
+    }
     // BOUND
     bool first_in_arena = (g.depth[a]++ == 0);
     if (first_in_arena) {
@@ -235,6 +246,37 @@ struct CritTask : d1::task {
     d1::task* cancel(d1::execution_data&) override { tbb::task_group* g = tg; delete this; g->m_wait_vertex.release(); return nullptr; }
 };
 
+// ---- life-cycle trace (RT_LIFE=1): every access to my_references / my_num_workers_allotted / my_limit / my_slots[i].my_is_occupied of the scenario's arenas ----
+struct LifeArena { arena* a; unsigned ns, rs; unsigned long long refs0; unsigned allot0, limit0; };
+static std::vector<LifeArena> g_life;
+static void life_register(tbb::task_arena* ta) {
+    arena* a = ta->my_arena.load(std::memory_order_relaxed);
+    if (!a) return;
+    g_life.push_back({a, a->my_num_slots, a->my_num_reserved_slots, (unsigned long long)a->my_references.a.load(std::memory_order_relaxed),
+                      a->my_num_workers_allotted.a.load(std::memory_order_relaxed), a->my_limit.a.load(std::memory_order_relaxed)});
+    verif::note("arena_new", g_life.size() - 1, 0);
+}
+
+// a task that returns a freshly allocated, never spawned task from execute(): the scheduler runs it at once (bypass), under the execute data of its parent
+struct BypChild : d1::task {
+    const std::vector<Node*>* kids; long region; tbb::task_group* tg;
+    BypChild(const std::vector<Node*>* k, long r, tbb::task_group* g) : kids(k), region(r), tg(g) {}
+    d1::task* execute(d1::execution_data&) override {
+        tbb::task_group* g = tg;
+        body(region, [&] { Ctx c; c.tg = g; run_block(*kids, c); });
+        delete this;
+        g->m_wait_vertex.release();
+        return nullptr;
+    }
+    d1::task* cancel(d1::execution_data&) override { tbb::task_group* g = tg; delete this; g->m_wait_vertex.release(); return nullptr; }
+};
+struct BypParent : d1::task {
+    BypChild* child;
+    explicit BypParent(BypChild* c) : child(c) {}
+    d1::task* execute(d1::execution_data&) override { BypChild* c = child; delete this; return c; }
+    d1::task* cancel(d1::execution_data& ed) override { BypChild* c = child; delete this; return c->cancel(ed); }
+};
+
 static market* the_market() {
     threading_control* tc = threading_control::g_threading_control;
     return tc ? static_cast<market*>(tc->my_pimpl->my_permit_manager.get()) : nullptr;
@@ -316,11 +358,28 @@ static void exec_stmt(Node* n, Ctx c) {
         long r = g_next_region++;
         tbb::this_task_arena::isolate([&] {
             me().regions.push_back(r);
+            g_region_tag[r] = governor::get_thread_data()->my_task_dispatcher->m_execute_data_ext.isolation;
             verif::note("iso_begin", (uint64_t)r, 0);
             run_block(n->kids, c);
             verif::note("iso_end", (uint64_t)r, 0);
             me().regions.pop_back();
         });
+    } else if (op == "isot") {
+        // an isolate region whose functor THROWS at its end (caught right outside isolate): the completion guard must restore the enclosing scope
+        long r = g_next_region++;
+        struct IsoThrow {};
+        try {
+            tbb::this_task_arena::isolate([&] {
+                me().regions.push_back(r);
+                g_region_tag[r] = governor::get_thread_data()->my_task_dispatcher->m_execute_data_ext.isolation;
+                struct Pop { ~Pop() { me().regions.pop_back(); } } pop;
+                verif::note("iso_begin", (uint64_t)r, 1);
+                run_block(n->kids, c);
+                verif::note("iso_end", (uint64_t)r, 1);
+                throw IsoThrow{};
+            });
+            viol("harness: the exception thrown by the isolate functor did not come out of isolate()");
+        } catch (IsoThrow&) {}
     } else if (op == "tg") {
         tbb::task_group g;
         Ctx c2; c2.tg = &g;
@@ -360,6 +419,12 @@ static void exec_stmt(Node* n, Ctx c) {
         g->m_wait_vertex.reserve();
         CritTask* t = new CritTask(&n->kids, cur_region(), g);
         r1::submit(*t, g->context(), td->my_arena, 1);
+    } else if (op == "byp") {
+        tbb::task_group* g = c.tg;
+        if (!g) { viol("harness: byp outside tg"); return; }
+        g->m_wait_vertex.reserve();
+        BypChild* ch = new BypChild(&n->kids, cur_region(), g);
+        r1::spawn(*new BypParent(ch), g->context());
     } else if (op == "spin") {
         while (!g_ev[arg(0)].load()) _mm_pause();
     } else if (op == "set") {
@@ -400,6 +465,7 @@ static void exec_stmt(Node* n, Ctx c) {
         A_[A].maxc = (int)arg(1); A_[A].reserved = (int)arg(2); A_[A].window = false;
         A_[A].ta = new tbb::task_arena(A_[A].maxc, A_[A].reserved);
         A_[A].ta->initialize();
+        life_register(A_[A].ta);
     } else if (op == "rm") {
         int A = (int)arg(0);
         tbb::task_arena* ta = A_[A].ta;
@@ -435,6 +501,7 @@ static void main_body() {
         A_[i].maxc = P.arenas[i].first; A_[i].reserved = P.arenas[i].second;
         A_[i].ta = new tbb::task_arena(A_[i].maxc, A_[i].reserved);
         A_[i].ta->initialize();
+        life_register(A_[i].ta);
     }
     g_ready.store(1);
     { Ctx c; run_block(P.threads[0], c); }
@@ -643,6 +710,257 @@ static void puppet_main() {
     _exit(0);     // the arena still holds dummy tasks: no orderly shutdown
 }
 
+
+// ---------------------------------------------------------------------------------------------------------------------
+// puppet "nest": as `iso`, but the scoping constructs are the REAL calls, kept open across the following input lines by a
+// recursive interpreter (one OS stack: real frames close in LIFO order over all puppet threads; the generator respects that):
+//   iso t X        r1::isolate_within_arena(delegate, X); X = 0: the tag is the address of the delegate (a local of this harness:
+//                  a later call at the same recursion depth gets the SAME address); answer `ok tag <canonical tag>`
+//   endiso t / throwiso t   the delegate returns / throws; answer `ok ed <isolation word after the completion guard ran>`
+//   exec t / endexec t      r1::execute(task_arena, delegate) on the arena the thread is in (nested_arena_context, same-arena path)
+//   newdisp / attach t d    a further task_dispatcher object (as create_coroutine makes one) / thread t continues on dispatcher d
+//   resreq t id    a resume task (tag no_isolation, as suspend_point_type's constructor sets it) is pushed into my_resume_task_stream
+//   stealc t v     task_dispatcher::steal_or_get_critical with critical_allowed (a critical task displaces the stolen task: re-spawn)
+//   bypass t       task_dispatcher::get_critical_task(a fresh task, ..): the task is run at once, or displaced and re-spawned
+// Canonical tags: 0, explicit values as given (< 100000), addresses as 1000 + order of first appearance.
+// ---------------------------------------------------------------------------------------------------------------------
+struct NFrame { int kind; std::intptr_t iso, saved; bool res = false; };      // kind 0 loop (virtual; res: it runs a resume task), 1 real isolate, 2 real execute
+static std::vector<task_dispatcher*> nDisp;
+static std::vector<int> nCur;                                 // puppet thread -> dispatcher
+static std::vector<std::vector<NFrame>> nStack;               // per dispatcher
+static std::vector<int> nReal;                                // dispatchers of the open real frames, innermost last
+static std::map<std::intptr_t, long> nCanon;
+static tbb::task_arena* nTa = nullptr;
+static arena* nOrigA = nullptr; static unsigned short nOrigI = 0; static task_dispatcher* nOrigD = nullptr;
+static int nEnd = 0;                                          // 0 running, 1 endiso, 2 throwiso, 3 endexec, 9 end of input
+struct NestThrow {};
+
+static long canon(std::intptr_t v) {
+    if (v >= 0 && v < 100000) return (long)v;
+    auto it = nCanon.find(v);
+    if (it == nCanon.end()) it = nCanon.insert({v, 1000 + (long)nCanon.size()}).first;
+    return it->second;
+}
+static void nbecome(int t) {
+    if (pTd->my_task_dispatcher) pTd->my_task_dispatcher->m_thread_data = nullptr;
+    pTd->attach_arena(*pA, (std::size_t)t);
+    task_dispatcher& d = *nDisp[nCur[t]];
+    d.m_thread_data = pTd; pTd->my_task_dispatcher = &d; d.m_stealing_threshold = 1;
+    d.m_execute_data_ext.task_disp = &d;
+}
+static void nrestore() {
+    if (pTd->my_task_dispatcher != nOrigD) { pTd->my_task_dispatcher->m_thread_data = nullptr; pTd->my_task_dispatcher = nOrigD; nOrigD->m_thread_data = pTd; }
+    pTd->attach_arena(*nOrigA, nOrigI);
+}
+static std::string ndump() {
+    std::string base = dump();
+    std::ostringstream o;
+    // insert the resume stream before " idle"
+    std::vector<long> ids;
+    auto& st = pA->my_resume_task_stream;
+    for (unsigned l = 0; l < st.N; ++l) for (d1::task* t : st.lanes[l].my_queue) if (t) ids.push_back(static_cast<PTask*>(t)->id);
+    std::sort(ids.begin(), ids.end());
+    size_t pos = base.find(" idle");
+    o << base.substr(0, pos) << " resume {";
+    for (size_t i = 0; i < ids.size(); ++i) o << (i ? " " : "") << ids[i];
+    o << "}" << base.substr(pos) << " ed";
+    for (task_dispatcher* d : nDisp) o << " " << canon(d->m_execute_data_ext.isolation);
+    o << " cur";
+    for (int c : nCur) o << " " << c;
+    return o.str();
+}
+static std::string ngot(d1::task* t, task_dispatcher& d) {
+    if (!t) return "none";
+    return "got " + std::to_string(static_cast<PTask*>(t)->id) + " ed " + std::to_string(canon(d.m_execute_data_ext.isolation));
+}
+static void nest_loop();
+struct NestDelegate : d1::delegate_base {
+    int t, kind; mutable bool entered = false;
+    NestDelegate(int t_, int k) : t(t_), kind(k) {}
+    bool operator()() const override {
+        int di = nCur[t];
+        task_dispatcher& d = *nDisp[di];
+        entered = true;
+        nStack[di].push_back({kind, 0, 0});
+        nReal.push_back(di);
+        if (kind == 1) printf("ok tag %ld\n", canon(d.m_execute_data_ext.isolation));
+        else printf("ok ed %ld\n", canon(d.m_execute_data_ext.isolation));
+        nrestore();
+        nest_loop();                                 // the following lines, until this frame is closed
+        nReal.pop_back();
+        nStack[di].pop_back();
+        // the frame's owner is the current thread again (the completion code looks at the thread's dispatcher)
+        if (pTd->my_task_dispatcher) pTd->my_task_dispatcher->m_thread_data = nullptr;
+        d.m_thread_data = pTd; pTd->my_task_dispatcher = &d;
+        if (nEnd == 2) { nEnd = 0; throw NestThrow{}; }
+        if (nEnd != 9) nEnd = 0;
+        return true;
+    }
+};
+static std::string nest_line(const std::vector<std::string>& w, bool& printed) {
+    auto num = [&](size_t i, long& v) { if (i >= w.size() || !is_num(w[i])) return false; v = atol(w[i].c_str()); return true; };
+    long t = 0, x = 0, y = 0;
+    printed = false;
+    if (w[0] == "check" && w.size() == 1 && pA) return ndump();
+    if (w[0] == "newdisp" && w.size() == 1 && pA) {
+        task_dispatcher* d = new (cache_aligned_allocate(sizeof(task_dispatcher))) task_dispatcher(pA);      // what create_coroutine() constructs
+        nDisp.push_back(d); nStack.push_back({});
+        return "ok disp " + std::to_string(nDisp.size() - 1);
+    }
+    if (w.size() < 2 || !num(1, t) || !pA || t < 0 || t >= pN) return "bad-op";
+    int th = (int)t, di = nCur[th];
+    nbecome(th);
+    task_dispatcher& d = *nDisp[di];
+    execution_data_ext& ed = d.m_execute_data_ext;
+    auto& stk = nStack[di];
+    auto loop_iso = [&](std::intptr_t& iso) { if (stk.empty() || stk.back().kind != 0) return false; iso = stk.back().iso; return true; };
+    auto took = [&](d1::task* r) { if (r) stk.back().res = static_cast<PTask*>(r)->id >= 5000; return ngot(r, d); };
+    if (w[0] == "wait" && w.size() == 2) { stk.push_back({0, ed.isolation, ed.isolation}); return "ok"; }
+    if (w[0] == "endwait" && w.size() == 2) {
+        if (stk.empty() || stk.back().kind != 0) return "bad-op";
+        ed.isolation = stk.back().saved; stk.pop_back(); return "ok";
+    }
+    if (w[0] == "iso" && w.size() == 3 && num(2, x) && x >= 0 && x < 100000) {
+        NestDelegate dl(th, 1);
+        bool thrown = false;
+        try { r1::isolate_within_arena(dl, (std::intptr_t)x); } catch (NestThrow&) { thrown = true; }
+        (void)thrown;
+        printed = true;
+        if (!dl.entered) { printf("bad-op\n"); return ""; }
+        if (nEnd != 9) printf("ok ed %ld\n", canon(d.m_execute_data_ext.isolation));      // the answer to the line that closed the frame
+        return "";
+    }
+    if ((w[0] == "endiso" || w[0] == "throwiso") && w.size() == 2) {
+        if (nReal.empty() || nReal.back() != di || stk.empty() || stk.back().kind != 1) return "bad-op";
+        nEnd = w[0] == "endiso" ? 1 : 2; printed = true; return "";
+    }
+    if (w[0] == "exec" && w.size() == 2) {
+        NestDelegate dl(th, 2);
+        r1::execute(*nTa, dl);
+        printed = true;
+        if (!dl.entered) { printf("bad-op\n"); return ""; }
+        if (nEnd != 9) printf("ok ed %ld\n", canon(d.m_execute_data_ext.isolation));
+        return "";
+    }
+    if (w[0] == "endexec" && w.size() == 2) {
+        if (nReal.empty() || nReal.back() != di || stk.empty() || stk.back().kind != 2) return "bad-op";
+        nEnd = 3; printed = true; return "";
+    }
+    if (w[0] == "attach" && w.size() == 3 && num(2, x)) {
+        if (x < 0 || x >= (long)nDisp.size()) return "bad-op";
+        nCur[th] = (int)x;
+        return "ok ed " + std::to_string(canon(nDisp[x]->m_execute_data_ext.isolation));
+    }
+    if (w[0] == "spawn" && w.size() == 2) {
+        PTask* p = new PTask(pNext++);
+        r1::spawn(*p, *pCtx);
+        return "task " + std::to_string(p->id) + " tag " + std::to_string(canon(task_accessor::isolation(*p)));
+    }
+    if (w[0] == "spawna" && w.size() == 3 && num(2, x) && x >= 0) {
+        PTask* p = new PTask(pNext++);
+        r1::spawn(*p, *pCtx, (d1::slot_id)x);
+        arena_slot& s = pA->my_slots[th];
+        d1::task* top = s.task_pool_ptr[s.tail.load(std::memory_order_relaxed) - 1];
+        std::string r = "task " + std::to_string(p->id) + " tag " + std::to_string(canon(task_accessor::isolation(*p)));
+        if (task_accessor::is_proxy_task(*top)) { pProxyId[top] = p->id; r += " ptag " + std::to_string(canon(task_accessor::isolation(*top))); }
+        return r;
+    }
+    if (w[0] == "enq" && w.size() == 2) {
+        PTask* p = new PTask(pNext++);
+        pA->enqueue_task(*p, *pCtx, *pTd);
+        return "task " + std::to_string(p->id) + " tag " + std::to_string(canon(task_accessor::isolation(*p)));
+    }
+    if (w[0] == "crit" && w.size() == 2) {
+        PTask* p = new PTask(pNext++);
+        r1::submit(*p, *pCtx, pA, 1);
+        return "task " + std::to_string(p->id) + " tag " + std::to_string(canon(task_accessor::isolation(*p)));
+    }
+    if (w[0] == "resreq" && w.size() == 3 && num(2, x) && x >= 0) {
+        PTask* p = new PTask(x);
+        task_accessor::context(*p) = pCtx;
+        task_accessor::isolation(*p) = no_isolation;       // suspend_point_type::suspend_point_type (E-GEN: `resumeTag`)
+        pA->my_resume_task_stream.push(p, random_lane_selector(pTd->my_random));
+        return "task " + std::to_string(x);
+    }
+    if (w[0] == "setidle" && w.size() == 3 && num(2, x)) { pA->mailbox(th).my_is_idle.store(x != 0, std::memory_order_relaxed); return "ok"; }
+    std::intptr_t iso = 0;
+    if (w[0] == "own" && w.size() == 2) {
+        if (!loop_iso(iso)) return "bad-op";
+        arena_slot& s = pA->my_slots[th];
+        d1::task* r = nullptr;
+        if (s.is_task_pool_published() && (r = s.get_task(ed, iso))) { ed.context = task_accessor::context(*r); ed.isolation = task_accessor::isolation(*r); }
+        return took(r);
+    }
+    if (w[0] == "idle" && w.size() == 4 && num(2, x) && num(3, y)) {
+        if (!loop_iso(iso) || x < 0 || x >= pN || x == t) return "bad-op";
+        pTd->my_random.x = (unsigned)((x > t ? x - 1 : x) << 16);
+        OnePass wt;
+        d1::task* r = d.receive_or_steal_task<false>(*pTd, ed, wt, iso, /*fifo_allowed*/ y != 0, /*critical_allowed*/ false);
+        return took(r);
+    }
+    if (w[0] == "critget" && w.size() == 2) {
+        if (!loop_iso(iso)) return "bad-op";
+        d.m_properties.critical_task_allowed = true;
+        d1::task* r = d.get_critical_task(nullptr, ed, iso, true);
+        d.m_properties.critical_task_allowed = true;
+        return took(r);
+    }
+    if (w[0] == "stealc" && w.size() == 3 && num(2, x)) {
+        if (!loop_iso(iso) || x < 0 || x >= pN || x == t) return "bad-op";
+        pTd->my_random.x = (unsigned)((x > t ? x - 1 : x) << 16);
+        d.m_properties.critical_task_allowed = true;
+        d1::task* r = d.steal_or_get_critical(ed, *pA, (unsigned)th, pTd->my_random, iso, true);
+        d.m_properties.critical_task_allowed = true;
+        return took(r);
+    }
+    if (w[0] == "bypass" && w.size() == 2) {
+        if (!loop_iso(iso) || stk.back().res) return "bad-op";      // resume_task::execute returns no task: nothing to bypass after it
+        PTask* yv = new PTask(pNext++);
+        task_accessor::context(*yv) = pCtx;
+        ed.context = pCtx;
+        d.m_properties.critical_task_allowed = true;
+        d1::task* r = d.get_critical_task(yv, ed, iso, true);
+        d.m_properties.critical_task_allowed = true;
+        return took(r);
+    }
+    return "bad-op";
+}
+static void nest_loop() {
+    std::string line;
+    while (nEnd == 0) {
+        if (!std::getline(std::cin, line)) { nEnd = 9; return; }
+        std::istringstream is(line); std::vector<std::string> w; std::string x;
+        while (is >> x) w.push_back(x);
+        if (w.empty()) { printf("bad-op\n"); continue; }
+        if (w[0] == "cfg" && w.size() == 2 && is_num(w[1]) && atoi(w[1].c_str()) >= 2 && atoi(w[1].c_str()) <= 8 && !nTa) {
+            pN = atoi(w[1].c_str());
+            nTa = new tbb::task_arena(pN, pN);
+            nTa->initialize();
+            pA = nTa->my_arena.load(std::memory_order_relaxed);
+            pA->my_limit.store((unsigned)pN, std::memory_order_relaxed);
+            for (int k = 0; k < pN; ++k) { nDisp.push_back(&pA->my_slots[k].default_task_dispatcher()); nCur.push_back(k); nStack.push_back({}); }
+            pCtx = new d1::task_group_context(d1::task_group_context::isolated);
+            printf("ok\n");
+            continue;
+        }
+        if (!nTa) { printf("bad-op\n"); continue; }
+        bool printed = false;
+        std::string out = nest_line(w, printed);
+        nrestore();
+        if (!printed) printf("%s\n", out.c_str());
+        else if (nEnd == 1 || nEnd == 2 || nEnd == 3) return;       // close the innermost real frame: its delegate returns / throws
+    }
+}
+static void nest_main() {
+    tbb::global_control gc(tbb::global_control::max_allowed_parallelism, 1);
+    tbb::task_scheduler_handle h{tbb::attach{}};
+    pTd = governor::get_thread_data();
+    nOrigA = pTd->my_arena; nOrigI = pTd->my_arena_index; nOrigD = pTd->my_task_dispatcher;
+    nest_loop();
+    fflush(stdout);
+    _exit(0);
+}
+
 // ---------------------------------------------------------------------------------------------------------------------
 static std::string rle(const std::vector<int>& s) {
     std::ostringstream o;
@@ -670,6 +988,12 @@ int main(int argc, char** argv) {
     verif::init_determinism(argc, argv);
     if (argc >= 2 && std::string(argv[1]) == "iso") {
         std::vector<std::function<void()>> bodies{puppet_main};
+        verif::ReplaySchedule rp;
+        verif::run(bodies, rp, 200000000);
+        return 0;
+    }
+    if (argc >= 2 && std::string(argv[1]) == "nest") {
+        std::vector<std::function<void()>> bodies{nest_main};
         verif::ReplaySchedule rp;
         verif::run(bodies, rp, 200000000);
         return 0;
@@ -712,6 +1036,30 @@ int main(int argc, char** argv) {
             ++k;
             if (e.kind == verif::K_NOTE) printf("note %zu t%d %s %llu %llu\n", k, e.tid, e.tag ? e.tag : "?", (unsigned long long)e.a, (unsigned long long)e.b);
             else if (e.addr && verif::addr_name(e.addr).compare(0, 4, "anon") != 0 && e.kind != verif::K_LOAD) printf("ev %zu %s\n", k, verif::format_event(e).c_str());
+        }
+    }
+    if (getenv("RT_LIFE")) {
+        // addresses are resolved while walking the log in order: an arena object created later in the memory of an earlier one takes over
+        std::map<const void*, std::pair<int, std::string>> where;
+        printf("life threads %zu\n", P.threads.size());
+        for (auto& e : r.log) {
+            if (e.kind == verif::K_NOTE) {
+                if (e.tag && !strcmp(e.tag, "arena_new")) {
+                    const LifeArena& L = g_life[e.a];
+                    for (auto it = where.begin(); it != where.end();) { if (it->second.first == (int)e.a) it = where.erase(it); else ++it; }
+                    where[(const void*)&L.a->my_references] = {(int)e.a, "refs"};
+                    where[(const void*)&L.a->my_num_workers_allotted] = {(int)e.a, "allot"};
+                    where[(const void*)&L.a->my_limit] = {(int)e.a, "limit"};
+                    for (unsigned k = 0; k < L.ns; ++k) where[(const void*)&L.a->my_slots[k].my_is_occupied] = {(int)e.a, "occ" + std::to_string(k)};
+                    printf("life new %llu %u %u %llu %u %u\n", (unsigned long long)e.a, L.ns, L.rs, L.refs0, L.allot0, L.limit0);
+                }
+                continue;
+            }
+            if (e.kind > verif::K_FXOR || !e.addr) continue;
+            auto it = where.find(e.addr);
+            if (it == where.end()) continue;
+            printf("life ev %d %d %s %s %s %llu %llu %d\n", it->second.first, e.tid, verif::kind_name(e.kind), it->second.second.c_str(), verif::order_name(e.order),
+                   (unsigned long long)e.a, (unsigned long long)e.b, e.ok);
         }
     }
     int nthreads = 0; for (int s : r.schedule) if (s + 1 > nthreads) nthreads = s + 1;
